@@ -20,13 +20,13 @@ HELP = """
     }
 
     /// records the byte stream fed to the hasher
-    pub struct VkRec { pub buf: [u8; 16], pub n: usize }
+    pub struct VkRec { pub buf: [u8; 48], pub n: usize }
     impl Hasher for VkRec {
         fn finish(&self) -> u64 { 0 }
         fn write(&mut self, bytes: &[u8]) {
             let mut k = 0usize;
             while k < bytes.len() {
-                if self.n < 16 { self.buf[self.n] = bytes[k]; }
+                if self.n < 48 { self.buf[self.n] = bytes[k]; }
                 self.n += 1;
                 k += 1;
             }
@@ -46,7 +46,8 @@ def spec(tier, seed):
     b = Builder("C09")
     cu = b.file("rusty_common/src/case_insensitive_utils.rs", "rusty_common", "case_insensitive_utils")
     b.helper(cu, HELP)
-    for n, t in ((4, "quick"), (6, "thorough")):
+    # names are at most 40 characters long (tokenizer limit): the length-40 instances cover every identifier
+    for n, t in ((4, "quick"), (8, "quick"), (40, "quick")):
         b.add(cu, "vk_c09_cmp_str_reference_len%d" % n, """
         let a: [u8; %(n)d] = kani::any();
         let c: [u8; %(n)d] = kani::any();
@@ -94,7 +95,7 @@ def spec(tier, seed):
         let mut k = 0usize;
         while k < %(n)d { kani::assume(a[k] < 128); k += 1; }
         let s = unsafe { std::str::from_utf8_unchecked(&a[..la]) };
-        let mut h = VkRec { buf: [0; 16], n: 0 };
+        let mut h = VkRec { buf: [0; 48], n: 0 };
         hash_str(s, &mut h);
         // the hasher sees exactly the case-folded bytes: strings equal under cmp_str hash identically
         assert!(h.n == la);
@@ -111,8 +112,8 @@ def spec(tier, seed):
         while k < 3 { kani::assume(a[k] < 128 && c[k] < 128); k += 1; }
         let x = CaseInsensitiveString::from(unsafe { std::str::from_utf8_unchecked(&a) });
         let y = CaseInsensitiveString::from(unsafe { std::str::from_utf8_unchecked(&c) });
-        let mut hx = crate::case_insensitive_utils::vk_c09::VkRec { buf: [0; 16], n: 0 };
-        let mut hy = crate::case_insensitive_utils::vk_c09::VkRec { buf: [0; 16], n: 0 };
+        let mut hx = crate::case_insensitive_utils::vk_c09::VkRec { buf: [0; 48], n: 0 };
+        let mut hy = crate::case_insensitive_utils::vk_c09::VkRec { buf: [0; 48], n: 0 };
         x.hash(&mut hx);
         y.hash(&mut hy);
         if x == y {
@@ -188,7 +189,7 @@ def spec(tier, seed):
               functions=["rusty_parser::input::row_col_view::create_row_col_view"])
     return b.build(
         tier,
-        bounds="byte strings of length 0..4 (quick) / 0..6 (thorough); the whole keyword table; 9 keywords in every case (quick, seed-rotated) / all (thorough)",
+        bounds="byte strings of every length 0..40 (the longest identifier the tokenizer admits); the whole keyword table; 9 keywords in every case (quick, seed-rotated) / all (thorough)",
         outside="blanks, colons, comments and program-level invariance (parser); DEFtype letter case is under C13",
         assumptions=["Keyword::try_from is a binary search with cmp_str over SORTED_KEYWORDS_STR (checked by the direct instances)"],
     )
